@@ -57,34 +57,15 @@ theorem mintMsgs_eq {p : Params} (s : State) {m : Minter} {isAdmin : Bool} {pric
     (h : mintMsgs p m isAdmin price = .ok ms) :
     MintPay.splitMsgs payVariant (payFactory p) (payMinter s m) isAdmin price = .ok ms := by
   unfold mintMsgs at h
-  have hfee := networkFee_eq p isAdmin price
+  peel h
+  peel h
+  rename_i hle
   have hdev : MintPay.devOf payVariant (payFactory p) = some (p.dev.getD LAUNCHPAD_DAO) := rfl
-  have hsel : MintPay.sellerOf payVariant (payMinter s m) = m.paymentAddress.getD m.admin := rfl
+  have hsel : MintPay.sellerOf payVariant (payMinter s m) = seller m := rfl
   have hft : MintPay.featuredOf payVariant = false := rfl
   unfold MintPay.splitMsgs MintPay.splitWith MintPay.feeMsgs MintPay.sellerMsgs
-  rw [hfee, hdev, hsel, hft]
-  simp only [seller] at h
-  generalize networkFee p isAdmin price = fee at h ⊢
-  by_cases hz : fee = 0
-  · subst hz
-    simp only [if_true] at h ⊢
-    split at h
-    · cases h
-    · rename_i hle
-      cases h
-      rw [if_neg hle]
-  · simp only [hz, if_false] at h ⊢
-    cases hd : p.dev with
-    | none => rw [hd] at h; cases h
-    | some d =>
-      rw [hd] at h
-      simp only at h
-      split at h
-      · cases h
-      · rename_i hle
-        cases h
-        rw [if_neg hle]
-        rfl
+  rw [networkFee_eq, hdev, hsel, hft, if_neg hle]
+  exact h
 
 theorem mintPrice_eq {s : State} {m : Minter} {isAdmin : Bool} {price : Coin} (h : mintPrice s m isAdmin = .ok price) :
     MintPay.selectPrice payVariant (payFactory s.params) (payMinter s m) s.now isAdmin = .ok price := by
